@@ -1,6 +1,7 @@
 #!/bin/bash
 # runs every quick check under several seeds from fresh processes; prints anything that is not exit 0
-cd /verif
+cd "$(cd "$(dirname "$0")/.." && pwd)"
+mkdir -p work
 for seed in "$@"; do
   for c in C01 C02 C03 C04 C05 C06 C07 C08 C09 C10 C11 C12 C13 C14 C15 C16 C17 C18 C19 C20; do
     out=$(VERIF_SEED=$seed ./check.sh $c quick 2>&1); rc=$?
